@@ -47,8 +47,7 @@ func H_C04_scalars() {
 	if verif.Choice("dflt.e", 2) == 1 {
 		t.E = "dflt"
 	}
-	verif.Assume(verif.Not(verif.IsNaN(t.C)))
-	verif.Assume(verif.Not(verif.IsNaN(float64(t.H))))
+	// (NaN defaults and settings are included: every comparison with NaN is false, so NaN satisfies no bound)
 	c := ucfg.New()
 	// which single setting is supplied by the configuration (keeps the path count linear)
 	switch verif.Choice("setting", 11) {
@@ -58,9 +57,7 @@ func H_C04_scalars() {
 	case 2:
 		c.SetUint("b", -1, verif.Uint64("cfg.b"))
 	case 3:
-		f := verif.Float64("cfg.c")
-		verif.Assume(verif.Not(verif.IsNaN(f)))
-		c.SetFloat("c", -1, f)
+		c.SetFloat("c", -1, verif.Float64("cfg.c"))
 	case 4:
 		c.SetInt("d", -1, verif.Int64("cfg.d")) // seconds
 	case 5:
@@ -74,9 +71,7 @@ func H_C04_scalars() {
 	case 7:
 		c.SetUint("g", -1, verif.Uint64("cfg.g"))
 	case 8:
-		f := verif.Float64("cfg.h")
-		verif.Assume(verif.Not(verif.IsNaN(f)))
-		c.SetFloat("h", -1, f)
+		c.SetFloat("h", -1, verif.Float64("cfg.h"))
 	case 9:
 		c.SetInt("i", -1, verif.Int64("cfg.i"))
 	case 10:
@@ -361,8 +356,13 @@ func H_C04_nested() {
 	cfg["unrelated"] = 1
 	c, err := ucfg.NewFrom(cfg)
 	verif.Assume(err == nil)
+	// list-valued positions: the pre-filled elements are combined with the configured ones by the policy
+	var uopts []ucfg.Option
+	if where == 2 || where == 8 || where == 12 {
+		uopts = polOpts(verif.Choice("policy", nPolicies))
+	}
 	var uerr error
-	panicked := !verif.NoPanic("C04/nested: Unpack panics", func() { uerr = c.Unpack(&t) })
+	panicked := !verif.NoPanic("C04/nested: Unpack panics", func() { uerr = c.Unpack(&t, uopts...) })
 	if panicked {
 		return
 	}
